@@ -80,10 +80,11 @@ def tree_shape(errh):
         for gs in isa.children:
             sl = []
             for st in gs.children:
-                sl.append({'st01': st.trn_set_id, 'st02': st.trn_set_control_num, 'st03': st.vriic, 'ack': st.ack_code, 'nerr': st.get_error_count(), 'closed': st.is_closed()})
+                sl.append({'st01': st.trn_set_id, 'st02': st.trn_set_control_num, 'st03': st.vriic, 'ack': st.ack_code, 'nerr': st.get_error_count(), 'closed': st.is_closed(),
+                           'line_st': st.cur_line_st, 'line_se': st.cur_line_se})
             gl.append({'fic': gs.fic, 'gs06': gs.gs_control_num, 'vriic': gs.vriic, 'ack': gs.ack_code, 'orig': gs.st_count_orig, 'recv': gs.st_count_recv,
-                       'nerr': gs.get_error_count(), 'sets': sl, 'closed': gs.is_closed()})
-        out.append({'isa13': isa.isa_trn_set_id, 'groups': gl, 'nerr': isa.get_error_count(), 'closed': isa.is_closed()})
+                       'nerr': gs.get_error_count(), 'sets': sl, 'closed': gs.is_closed(), 'line_gs': gs.cur_line_gs, 'line_ge': gs.cur_line_ge})
+        out.append({'isa13': isa.isa_trn_set_id, 'groups': gl, 'nerr': isa.get_error_count(), 'closed': isa.is_closed(), 'line_isa': isa.cur_line_isa, 'line_iea': isa.cur_line_iea})
     return out
 
 
